@@ -903,6 +903,15 @@ func Main(types []TypeInfo) {
 		os.Exit(2)
 	}
 	d := NewDriver(w, *seed, sel)
+	// message types that have generated fast-marshal code (every registered type, selected or not): a message of any other type is decoded by
+	// its owning runtime alone, whose business it is how it keeps unknown fields (both Go runtimes re-encode their keys minimally)
+	generatedTypes = map[string]bool{}
+	regFiles := map[string]protoreflect.FileDescriptor{}
+	for _, ti := range types {
+		if md, err := descriptorOf(ti, regFiles); err == nil {
+			generatedTypes[string(md.FullName())] = true
+		}
+	}
 	for _, f := range strings.Split(*fam, ",") {
 		switch f {
 		case "marshal":
